@@ -141,6 +141,9 @@ func payloads() []payload {
 		{"cdata-inside", "S1E <![CDATA[S2E <now> &]]> S3E", 3, "<now>", false, ""},
 		{"cdata-then-newline", "<![CDATA[S1E & S2E]]>\n", 2, "", false, ""},
 		{"cdata-only", "<![CDATA[S1E]]>", 1, "", false, ""},
+		// a CDATA section FIRST and ordinary character data behind it: the escapes behind it are character data like anywhere else
+		{"cdata-first-then-escaped-markup", "<![CDATA[S1E]]> &lt;u&gt;S2E&lt;/u&gt; S3E", 3, "<u>S2E</u>", false, ""},
+		{"cdata-first-then-amp-entity", "<![CDATA[S1E]]> S2E &amp;lt; &amp;amp; S3E", 3, "", false, "&amp;lt; &amp;amp;"},
 		{"link", `S1E <a href="http://x/l?a=1&amp;b=2">S2E</a>`, 2, "", true, ""},
 		{"escaped-markup", "&lt;b&gt;S1E&lt;/b&gt;", 1, "<b>S1E</b>", false, ""},
 		{"numeric-lt", "S1E &#60;i&#62;S2E", 2, "<i>S2E", false, ""},
